@@ -21,5 +21,21 @@ for f in sorted(glob.glob('/verif/rules/*.py') + glob.glob('/verif/lib/*.py')):
             if name in top and uses:
                 print(f'{f}:{ln}: local import of `{name}` in {fn.name}() shadows the module-level import used at line {uses[0]}')
                 bad += 1
+# the same trap with plain assignments: `X = ..` inside a function makes the module-level X a local of the whole function
+for f in sorted(glob.glob('/verif/rules/*.py') + glob.glob('/verif/lib/*.py')):
+    t = ast.parse(open(f).read())
+    consts = {tg.id for n in t.body if isinstance(n, ast.Assign) for tg in n.targets if isinstance(tg, ast.Name)}
+    for fn in [n for n in ast.walk(t) if isinstance(n, ast.FunctionDef)]:
+        assigned = {}
+        for n in ast.walk(fn):
+            if isinstance(n, ast.Assign):
+                for tg in n.targets:
+                    if isinstance(tg, ast.Name) and tg.id in consts:
+                        assigned.setdefault(tg.id, n.lineno)
+        for name, ln in assigned.items():
+            uses = [n.lineno for n in ast.walk(fn) if isinstance(n, ast.Name) and n.id == name and isinstance(n.ctx, ast.Load) and n.lineno < ln]
+            if uses:
+                print(f'{f}:{ln}: `{name}` is assigned in {fn.name}() after the module-level `{name}` is read at line {uses[0]}')
+                bad += 1
 print('lint_rules:', 'ok' if not bad else f'{bad} problem(s)')
 sys.exit(1 if bad else 0)
